@@ -346,6 +346,19 @@ impl PossibleCycles {
     }
 }
 
+#[cfg(rust_cc_verif)]
+impl PossibleCycles {
+    pub(crate) fn verif_with_size(size: usize) -> Self {
+        let pc = Self::new();
+        pc.size.set(size);
+        pc
+    }
+
+    pub(crate) fn verif_clear_size(&self) {
+        self.size.set(0);
+    }
+}
+
 impl Drop for PossibleCycles {
     #[inline]
     fn drop(&mut self) {
